@@ -10,8 +10,11 @@ require (
 
 require (
 	github.com/AdguardTeam/golibs v0.29.0 // indirect
+	github.com/AdguardTeam/gomitmproxy v0.2.1 // indirect
+	github.com/pkg/errors v0.9.1 // indirect
 	golang.org/x/exp v0.0.0-20240909161429-701f63a606c0 // indirect
 	golang.org/x/sys v0.25.0 // indirect
+	golang.org/x/text v0.18.0 // indirect
 )
 
 replace github.com/AdguardTeam/urlfilter => /repo
